@@ -10,7 +10,9 @@ observation: `<result tree> | is= not= when= bool= eqL= eqR= | attr=`; in the tr
   attr = outcome of get/set/del of an attribute when r is an instance of Missing, followed by
   mod=<assignment of __class__ (to a class of the same empty layout), __dict__, __slots__, __doc__, _instance, __bool__ and
   deletion of __class__, __doc__, __slots__: R = rejected with AttributeError/TypeError> intact=<the object is still the falsy
-  Missing singleton after each probe>; anything a mutated library lets through is undone by the harness.
+  Missing singleton after each probe>; byp=<object.__setattr__(r, "value", 42), vars(r), r.__dict__: R = rejected, i.e. no
+  instance storage> post=<reading r.value afterwards> wr=<weakref.ref(r), recorded only>; anything a mutated library lets
+  through is undone by the harness.  `P` = object of another type whose __class__ reports Missing.
 """
 from __future__ import annotations
 
@@ -75,6 +77,24 @@ class AlwaysEq:
     __hash__ = None  # type: ignore[assignment]
 
 
+class Pretender:
+    """An object of another type that reports `Missing` as its `__class__` (like `Mock(spec=Missing)` or a proxy):
+    `isinstance(x, Missing)` and `case Missing():` accept it, identity does not."""
+
+    @property
+    def __class__(self):  # noqa: ANN204
+        return haiway.Missing
+
+    def __copy__(self):
+        return self
+
+    def __deepcopy__(self, memo):  # noqa: ANN001
+        return self
+
+    def __reduce__(self):
+        return (Pretender, ())
+
+
 DFLT = object()
 
 # ---------------------------------------------------------------------------------------------
@@ -95,7 +115,7 @@ def parse_tokens(toks: list[str]):
             raise BadCase("short")
         t = toks[pos]
         pos += 1
-        if t in ("N", "T", "F", "M", "Mc", "Q"):
+        if t in ("N", "T", "F", "M", "Mc", "Q", "P"):
             return (t,)
         h, arg = t[0], t[1:]
         if h == "I":
@@ -128,7 +148,7 @@ HASHABLE_LEAVES = ("N", "T", "F", "I", "S")
 
 def wellformed(t) -> bool:
     h = t[0]
-    if h in ("N", "T", "F", "I", "S", "M", "Mc", "Q"):
+    if h in ("N", "T", "F", "I", "S", "M", "Mc", "Q", "P"):
         return True
     if h in ("L", "U"):
         return all(wellformed(c) for c in t[1])
@@ -158,7 +178,7 @@ def wellformed(t) -> bool:
 def render_tree(t, norm: bool = False) -> str:
     """tokens of a case tree; with `norm` in the form the observation uses (Mc -> M, sets sorted)"""
     h = t[0]
-    if h in ("N", "T", "F", "M", "Q"):
+    if h in ("N", "T", "F", "M", "Q", "P"):
         return h
     if h == "Mc":
         return "M" if norm else "Mc"
@@ -240,6 +260,8 @@ def build(t):
         return haiway.Missing()
     if h == "Q":
         return AlwaysEq()
+    if h == "P":
+        return Pretender()
     if h == "L":
         return [build(c) for c in t[1]]
     if h == "U":
@@ -270,6 +292,8 @@ def observe_tree(x) -> str:
         return f"S{x}"
     if type(x) is AlwaysEq:
         return "Q"
+    if type(x) is Pretender:
+        return "P"
     if type(x) is list:
         return " ".join([f"L{len(x)}"] + [observe_tree(c) for c in x])
     if type(x) is tuple:
@@ -349,7 +373,54 @@ def probe_special(r) -> str:
                     object.__delattr__(r, name)
                 except Exception:  # noqa: BLE001
                     pass
-    return f"mod={','.join(res)} intact={'1' if intact else '0'}"
+    # bypassing Missing.__setattr__: there must be no instance storage at all
+    byp = []
+
+    def attempt(f, cleanup=None):
+        try:
+            f()
+            byp.append("ok")
+            if cleanup:
+                try:
+                    cleanup()
+                except Exception:  # noqa: BLE001
+                    pass
+        except (AttributeError, TypeError):
+            byp.append("R")
+        except Exception as exc:  # noqa: BLE001
+            byp.append("X" + exc_enum(exc))
+
+    stored = {}
+
+    def raw_set():
+        object.__setattr__(r, "value", 42)
+        try:
+            stored["seen"] = r.value == 42
+        except Exception:  # noqa: BLE001
+            stored["seen"] = False
+
+    attempt(raw_set)
+    try:
+        r.value  # noqa: B018
+        post = "ok"
+    except AttributeError:
+        post = "AE"
+    except Exception as exc:  # noqa: BLE001
+        post = "X" + exc_enum(exc)
+    try:
+        object.__delattr__(r, "value")
+    except Exception:  # noqa: BLE001
+        pass
+    attempt(lambda: vars(r))
+    attempt(lambda: r.__dict__)
+    import weakref
+
+    try:
+        weakref.ref(r)
+        wr = "ok"
+    except TypeError:
+        wr = "R"
+    return f"mod={','.join(res)} byp={','.join(byp)} post={post} intact={'1' if intact else '0'} wr={wr}"
 
 
 def observe(r) -> str:
@@ -415,6 +486,9 @@ def run_real(case: str) -> str:
 # comparison
 
 _ALTS: dict[str, list[str]] = {}
+import re as _re  # noqa: E402
+
+_WR = _re.compile(r" wr=\S+")
 
 
 def _alt_case(case: str) -> bool:
@@ -433,6 +507,7 @@ def canon(case: str, out: str) -> str:
         parse_case(case)
     except BadCase:
         return "bad-case"
+    out = _WR.sub("", out)   # weak-referenceability is recorded, not compared: the property is silent on it
     if out.startswith("ALT "):
         if not _alt_case(case):
             return out
@@ -510,6 +585,15 @@ def monitor(case: str, out: str) -> list[str]:
             for name, res in zip([f"set:{n}" for n in SPECIAL_SETS] + [f"del:{n}" for n in SPECIAL_DELS], mods):
                 if res != "R":
                     fails.append(f"missing.modification-not-rejected.{name}")
+        byp = extra.get("byp", "").split(",")
+        if len(byp) != 3:
+            fails.append("missing.no-observation")
+        else:
+            for name, res in zip(("object.__setattr__", "vars", "__dict__"), byp):
+                if res != "R":
+                    fails.append(f"missing.has-instance-storage.{name}")
+        if extra.get("post") != "AE":
+            fails.append("missing.attribute-get-not-rejected")
         if extra.get("intact") != "1":
             fails.append("missing.modified")
     elif top != "m":
@@ -526,7 +610,7 @@ def monitor(case: str, out: str) -> list[str]:
     return sorted(set(fails))
 
 
-LOOKALIKES = {"N", "F", "I0", "S", "L0", "U0", "D0", "E0", "Z0", "Q"}
+LOOKALIKES = {"N", "F", "I0", "S", "L0", "U0", "D0", "E0", "Z0", "Q", "P"}
 
 
 def nontrivial(case: str, out: str) -> bool:
@@ -547,7 +631,7 @@ def classify(case: str, out: str):
     yield f"depth:{depth(tree)}"
     toks = render_tree(tree).split()
     yield f"missing-leaves:{min(sum(1 for t in toks if t in ('M', 'Mc')), 4)}"
-    for t in sorted({t[0] for t in toks if t[0] in 'LUDEZAQ'}):
+    for t in sorted({t[0] for t in toks if t[0] in 'LUDEZAQP'}):
         yield "has:" + t
     if out.startswith("ERR:"):
         yield "obs:" + out
@@ -556,7 +640,7 @@ def classify(case: str, out: str):
 # ---------------------------------------------------------------------------------------------
 # generation
 
-LEAVES = ["M", "Mc", "N", "T", "F", "I0", "I3", "Sx", "S", "L0", "U0", "D0", "E0", "Z0", "Q"]
+LEAVES = ["M", "Mc", "N", "T", "F", "I0", "I3", "Sx", "S", "L0", "U0", "D0", "E0", "Z0", "Q", "P"]
 
 
 def corpus():
@@ -565,7 +649,8 @@ def corpus():
     cs += ["deepcopy A3 M M M", "deepcopy A1 L1 M", "copy A3 L1 M U1 M M", "deepcopy A2 D1 Sk U1 M U2 M I1",
            "pickle4 D1 Sk U2 L1 M Mc", "pickle1 L1 A1 M", "pickle3 A3 M M M", "pickle6 M", "call N",
            "deepcopy L1 L1 L1 L1 M", "pickle5 U1 U1 D1 I1 L1 Mc"]
-    cs += [f"id {x}" for x in ("N", "F", "I0", "S", "L0", "U0", "D0", "E0", "Z0", "Q", "T", "I3")]
+    cs += [f"id {x}" for x in ("N", "F", "I0", "S", "L0", "U0", "D0", "E0", "Z0", "Q", "T", "I3", "P")]
+    cs += ["copy P", "deepcopy A1 P", "pickle2 L2 P M", "id A3 P M M"]
     cs += [f"{op} Q" for op in ("copy", "deepcopy", "pickle2")]
     return cs
 
